@@ -442,7 +442,9 @@ func c16Writer(c *Ctx, r *gen.Rand, te *typeEntry, rows reflect.Value, opts []pa
 				name string
 				w    parquet.RowWriter
 			}{
-				{"FilterRowWriter", parquet.FilterRowWriter(parquet.NewBuffer(schema), func(row parquet.Row) bool { return keep == 0 || len(row) == 0 || row[0].Column()%2 == 0 || int(row[len(row)-1].Int64())%(keep+1) == 0 })},
+				{"FilterRowWriter", parquet.FilterRowWriter(parquet.NewBuffer(schema), func(row parquet.Row) bool {
+					return keep == 0 || len(row) == 0 || row[0].Column()%2 == 0 || int(row[len(row)-1].Int64())%(keep+1) == 0
+				})},
 				{"TransformRowWriter", parquet.TransformRowWriter(parquet.NewBuffer(schema), func(dst, src parquet.Row) (parquet.Row, error) { return append(dst, src...), nil })},
 				{"MultiRowWriter", parquet.MultiRowWriter(parquet.NewBuffer(schema), parquet.NewBuffer(schema))},
 				{"RowBuffer.WriteRows", te.ops.NewRowBuffer()},
